@@ -412,7 +412,7 @@ NT = ("some requested pair has a segment before filtering, and: the same MRCA on
       "(different path or split edge), or one node of a pair is the MRCA (ancestor pair), or a filter "
       "removes at least one segment")
 SUBCHECKS = [
-    SubCheck("C19.segments", run_ibd, strategy=ibd_case, quick=30000, thorough=900000, rule=NT,
+    SubCheck("C19.segments", run_ibd, strategy=ibd_case, quick=20000, thorough=600000, rule=NT,
              floors={"some_segments": 0.25, "same_mrca_diff_path": 0.06, "split_on_chain": 0.05,
                      "ancestor_pair": 0.15, "min_span_cuts": 0.08, "max_time_cuts": 0.06,
                      "filter_cuts_some_keeps_some": 0.02,
